@@ -25,12 +25,19 @@ func c09NestedServers(c *core.Ctx, idx *int) {
 		name  string
 		urls  []string
 		bases []string
+		vars  map[int]gen.S // server index -> its variables
 	}
+	envVar := gen.S{"env": gen.S{"default": "h"}}
 	sets := []srvSet{
-		{"root-then-/v1", []string{"https://h.t", "https://h.t/v1"}, []string{"", "/v1"}},
-		{"/v1-then-root", []string{"https://h.t/v1", "https://h.t"}, []string{"/v1", ""}},
-		{"/v1-then-/v1/x", []string{"https://h.t/v1", "https://h.t/v1/x"}, []string{"/v1", "/v1/x"}},
-		{"three-nested", []string{"https://h.t", "https://h.t/v1", "https://h.t/v1/x"}, []string{"", "/v1", "/v1/x"}},
+		{"root-then-/v1", []string{"https://h.t", "https://h.t/v1"}, []string{"", "/v1"}, nil},
+		{"/v1-then-root", []string{"https://h.t/v1", "https://h.t"}, []string{"/v1", ""}, nil},
+		{"/v1-then-/v1/x", []string{"https://h.t/v1", "https://h.t/v1/x"}, []string{"/v1", "/v1/x"}, nil},
+		{"three-nested", []string{"https://h.t", "https://h.t/v1", "https://h.t/v1/x"}, []string{"", "/v1", "/v1/x"}, nil},
+		// the nested server's host is a variable (whose value lands in the same map as the path parameters)
+		{"root-then-{env}/v1", []string{"https://h.t", "https://{env}.t/v1"}, []string{"", "/v1"}, map[int]gen.S{1: envVar}},
+		{"{env}/v1-then-root", []string{"https://{env}.t/v1", "https://h.t"}, []string{"/v1", ""}, map[int]gen.S{0: envVar}},
+		{"{env}-root-then-/v1", []string{"https://{env}.t", "https://h.t/v1"}, []string{"", "/v1"}, map[int]gen.S{0: envVar}},
+		{"both-{env}", []string{"https://{env}.t/v1", "https://{env}.t"}, []string{"/v1", ""}, map[int]gen.S{0: envVar, 1: envVar}},
 	}
 	tsets := [][]string{
 		{"/pets", "/{tenant}/pets"},
@@ -69,8 +76,12 @@ func c09NestedServers(c *core.Ctx, idx *int) {
 			}
 			doc := baseDoc(pathsObj)
 			var sv []any
-			for _, u := range ss.urls {
-				sv = append(sv, gen.S{"url": u})
+			for ui, u := range ss.urls {
+				so := gen.S{"url": u}
+				if v, ok := ss.vars[ui]; ok {
+					so["variables"] = gen.CloneValue(v)
+				}
+				sv = append(sv, so)
 			}
 			doc["servers"] = sv
 			d, err := loadDoc(doc)
